@@ -41,7 +41,8 @@ def cfg_of(work, cfgname):
     xo = re.search(r"XidOf\s*<-\s*(\w+)", txt).group(1)
     xid = {"XidAll7": [7] * ncall, "Xid78": [7, 8][:ncall], "Xid778": [7, 7, 8][:ncall]}[xo]
     return dict(T=int(g("T")), tries=int(g("Tries")), bufcap=int(g("BufCap")), xid=xid,
-                urgent=g("Urgent") == "TRUE", timed=True, wfault=g("WFault", "FALSE") == "TRUE")
+                urgent=g("Urgent") == "TRUE", timed=True, wfault=g("WFault", "FALSE") == "TRUE",
+                rfault=g("RFault", "FALSE") == "TRUE")
 
 
 def leads(work, which):
@@ -187,7 +188,13 @@ def client_check(work, tier, seed, replay, propid):
     else:
         lead, lmcs = leads(work, [("MC_ClientLeadTimer", "Schedule"), ("MC_ClientLeadDeadline", "Deadline"),
                                   ("MC_ClientLeadCarry", "Schedule"), ("MC_ClientLeadLeak", "IdReusable"),
-                                  ("MC_ClientLeadFire", "IdReusable")])
+                                  ("MC_ClientLeadFire", "IdReusable"), ("MC_ClientLeadReadErr", "DoneOnlyByClose")])
+        if propid == "C11":
+            # liveness is not vacuous either: a loop that survives the error of a closed connection keeps Close waiting for ever
+            r = common.tlc(work, "MC_Client", cfg="MC_ClientLiveStuck", workers=4, timeout=600)
+            if "CloseReturns" not in r["violated"] and "Temporal properties were violated" not in r["out"]:
+                raise Infra("MC_ClientLiveStuck: the wrong design must violate CloseReturns (non-vacuity): %s\n%s" % (r["violated"], r["out"][-1500:]))
+            lmcs.append(dict(r, violated=r["violated"] or ["CloseReturns"]))
     # 3. random behaviours of the specification
     sims, simr = simulate(work, 150 if quick else 1500, 70, seed)
     # 4. replay into the real clients + random scheduler runs, 5. validate every recorded execution
